@@ -768,6 +768,11 @@ impl<K: CacheKey + 'static> AsyncCache<K> for MultiLayerCacheImpl<K> {
                         if let Some(entry_tracker) = tracker.get_mut(key) {
                             entry_tracker.update_access();
 
+                            // Release the write guard first: should_promote() takes the
+                            // read lock of the same RwLock, and std's RwLock is not
+                            // reentrant (the call would never return).
+                            drop(tracker);
+
                             // Check for promotion opportunity
                             if self.should_promote(key, layer_index) {
                                 // DESIGN DECISION: Cache promotion is deferred
